@@ -1441,6 +1441,36 @@ let suite_wire_http t v =
   v.cls <- "D";
   v.nontrivial <- np >= 2 || cut >= 0 || level <> 0
 
+(* ============================ suite SR : receiver under concurrent connections ==== *)
+let suite_race t v =
+  let kind = next t in
+  let _p1 = next t in let p2 = next t in let _p3 = next t in
+  expect t "=";
+  let facts = Hashtbl.create 16 in
+  while not (eol t) do
+    let tok = next t in
+    (match String.index_opt tok '=' with
+     | Some i -> Hashtbl.replace facts (String.sub tok 0 i) (String.sub tok (i + 1) (String.length tok - i - 1))
+     | None -> ())
+  done;
+  let f k = try Hashtbl.find facts k with Not_found -> "" in
+  let fi k = try int_of_string (f k) with _ -> 0 in
+  (match kind with
+   | "swap" ->
+       let final = f "final" and logged = f "logged" in
+       if final <> "-" then begin
+         if final <> logged || not (final = f "h1" || final = f "h2") then oracle v "delivered_content_not_validated" false;
+         if p2 = "1" && final = f "wire2" then oracle v "delivered_content_not_validated" false
+       end
+   | "storm" ->
+       if fi "bad_content" > 0 || fi "bad_log_hash" > 0 then oracle v "delivered_content_not_validated" false;
+       if fi "logged_twice" > 0 then oracle v "logged_twice" false;
+       if fi "before_predecessor" > 0 then oracle v "delivered_before_predecessor" false;
+       if fi "delivered" < fi "files" || fi "held_left" > 0 then oracle v "complete_file_not_delivered" false
+   | s -> raise (Malformed ("race kind " ^ s)));
+  v.cls <- "D";
+  v.nontrivial <- true
+
 (* ============================ dispatch ====================================== *)
 let run_line line =
   let t = mk line in
@@ -1458,6 +1488,7 @@ let run_line line =
       | "H" -> suite_http t v
       | "N" -> suite_scan t v
       | "W" -> suite_wire t v
+      | "SR" -> suite_race t v
       | "WH" -> suite_wire_http t v
       | "LC" -> suite_log_conc t v
       | s -> raise (Malformed ("unknown suite " ^ s)))
